@@ -5,6 +5,8 @@
 
 """Module containing the BiLinearForm and LinearForm classes used to construct arbitrary fem matrices."""
 
+import importlib
+import sys
 from abc import ABC, abstractmethod
 from typing import Callable, TYPE_CHECKING
 import numpy as np
@@ -17,6 +19,11 @@ if TYPE_CHECKING:
     from ._field import Field
 
 
+def _Load_form(module: str, name: str):
+    """Loads a form defined at module level with the decorator."""
+    return getattr(importlib.import_module(module), name)
+
+
 class _Form(ABC):
     """Form class from which BilinearForm and LinearForm are derived."""
 
@@ -25,6 +32,16 @@ class _Form(ABC):
 
     def __call__(self, *args, **kwds):
         return self._form(*args, **kwds)
+
+    def __reduce__(self):
+        # A form written with the decorator takes the place of its function in the module:
+        # the function can then no longer be pickled by reference, the form can.
+        form = self._form
+        module = sys.modules.get(getattr(form, "__module__", None))
+        name = getattr(form, "__qualname__", "")
+        if module is not None and getattr(module, name, None) is self:
+            return (_Load_form, (form.__module__, name))
+        return super().__reduce__()
 
     @abstractmethod
     def Integrate_e(self, field: "Field") -> np.ndarray:
